@@ -40,6 +40,12 @@ WIDEN = {"uint8_t": "uint16_t", "uint16_t": "uint32_t", "uint32_t": "uint64_t", 
          "int8_t": "int16_t", "int16_t": "int32_t", "int32_t": "int64_t", "float": "double"}
 
 
+def _ek(key):
+    """equality class of a set element / mapping key as Python sees it
+    (0.0 and -0.0 are one key; the key object itself is hashable)"""
+    return key
+
+
 def _gt():
     import gtirb
 
@@ -365,7 +371,7 @@ def round_floats(tree, jv):
         out, seen = [], set()
         for x in jv:
             x = round_floats(subs[0], x)
-            k = repr(auxgen.eqkey(subs[0], x))
+            k = _ek(auxgen.eqkey(subs[0], x))
             if k not in seen:
                 seen.add(k)
                 out.append(x)
@@ -374,7 +380,7 @@ def round_floats(tree, jv):
         out, seen = [], set()
         for a, b in jv:
             a = round_floats(subs[0], a)
-            k = repr(auxgen.eqkey(subs[0], a))
+            k = _ek(auxgen.eqkey(subs[0], a))
             if k not in seen:
                 seen.add(k)
                 out.append([a, round_floats(subs[1], b)])
@@ -422,8 +428,8 @@ def mutate(g, tree, cur, pv, alts, k, lookup):
         if alt:
             e = alt[k % len(alt)]
             pv.add(auxref.to_python(subs[0], e, g, lookup))
-            key = repr(auxgen.eqkey(subs[0], e))
-            if any(repr(auxgen.eqkey(subs[0], x)) == key for x in cur):
+            key = _ek(auxgen.eqkey(subs[0], e))
+            if any(_ek(auxgen.eqkey(subs[0], x)) == key for x in cur):
                 return cur
             return cur + [e]
         if cur:
@@ -435,10 +441,10 @@ def mutate(g, tree, cur, pv, alts, k, lookup):
         if alt:
             kk, vv = alt[k % len(alt)]
             pv[auxref.to_python(subs[0], kk, g, lookup)] = auxref.to_python(subs[1], vv, g, lookup)
-            key = repr(auxgen.eqkey(subs[0], kk))
+            key = _ek(auxgen.eqkey(subs[0], kk))
             out, hit = [], False
             for a, b in cur:
-                if repr(auxgen.eqkey(subs[0], a)) == key:
+                if _ek(auxgen.eqkey(subs[0], a)) == key:
                     out.append([a, vv])
                     hit = True
                 else:
